@@ -73,12 +73,17 @@ CHECKS["C21"] = dict(
    text="Machine-checked proof (Coq), every width and every operand: strided-interval add is sound (C21_add); sub and neg are sound when "
         "the subtracted interval's upper bound is one of its members (C21_sub, C21_neg) and NOT otherwise (C21_sub_unaligned_refuted, "
         "witness {0} - 2[0,1] at 2 bits); normalisation keeps every member (C21_normalize); zero_extend is sound for an interval "
-        "that does not wrap around (C21_zext) and not for one that does (C21_zext_wrapping_refuted). The model's record-level operations call "
+        "that does not wrap around (C21_zext) and not for one that does (C21_zext_wrapping_refuted); a definite answer of the unsigned "
+        "comparisons ULT/ULE/UGT/UGE (_ssplit, _unsigned_bounds, the all-pairs decision) holds for every pair of members (C21_ult, C21_ule, "
+        "C21_ugt, C21_uge), and they answer whenever a wrapping operand has a positive stride (C21_ucmp_total); the same for the signed "
+        "comparisons SLT/SLE/SGT/SGE over the repaired _signed_bounds (_ssplit, then _nsplit of every piece, memberless pieces skipped: "
+        "C21_slt, C21_sle, C21_sgt, C21_sge), and every member lies between one pair of _unsigned_bounds / _signed_bounds "
+        "(C21_unsigned_bounds, C21_signed_bounds). The model's record-level operations call "
         "the integer helpers re-translated from strided_interval.py on every run and are compared result-for-result with the real code. "
-        "All other transfer functions (mul, div, mod, bitwise, shifts, sign extension, extraction, concat, comparisons) are NOT modelled: "
+        "All other transfer functions (mul, div, mod, bitwise, shifts, sign extension, extraction, concat, eq) are NOT modelled: "
         "they are swept directly -- exhaustively at widths 1-2 (1-3 in the thorough tier), sampled above -- and are unsound on the "
-        "pinned tree in 23 operations; those are known findings identified by (operation, input).",
-   design="5/C21", technique="Coq soundness proofs for add/sub/neg over translated helpers; exhaustive small-width sweep of the real code for the rest",
+        "pinned tree in 19 operations; those are known findings identified by (operation, input). Three defects of the bounds functions were repaired.",
+   design="5/C21", technique="Coq soundness proofs for add/sub/neg/zero_extend/the eight order comparisons over translated helpers; exhaustive small-width sweep of the real code for the rest",
    note="Trusted: Coq kernel; tools/py2coq.py; Model/SI.v hand-written; sweep oracle = member enumeration from the definition. "
         "Most of this property is decided by testing, not proof; the known-findings list is large (known/C21.txt.gz).")
 CHECKS["C22"] = dict(
@@ -176,12 +181,15 @@ CHECKS["C12"] = dict(
         "all models are its values over the models of the groups it depends on provided the remaining groups are satisfiable (C12_eval); "
         "that premise is necessary (C12_eval_needs_sat -- the defect repaired in _ensure_sat was exactly its omission); the groups the "
         "model of split() produces are pairwise variable-disjoint, so the principle applies to them (C12_split_independent, "
-        "C12_split_sat). The bookkeeping of "
-        "CompositeFrontend (child creation, copy-on-write, reabsorption, merged-solver cache) is NOT modelled: after every step of random "
+        "C12_split_sat). The merged-solver cache is modelled (Model/CompCache.v): the repaired invalidation rule keeps every surviving "
+        "cache entry the combination of the children it stands for over any history of stores (C12_cache_valid), the pinned rule did not "
+        "(C12_cache_pinned_refuted); the extracted rule is compared with CompositedCacheMixin._remove_cached on the real cache keys. The rest "
+        "of the bookkeeping of CompositeFrontend (child creation, copy-on-write, reabsorption) is NOT modelled: after every step of random "
         "histories (add, queries with/without extras, branch, simplify, split, combine, merge on trees of composites) the children are checked "
-        "to be together equivalent to what was added, and every answer is compared with enumeration of all 4096 assignments (testing).",
+        "to be together equivalent to what was added, every cached merged solver (of a satisfiable composite) to have the models of the children "
+        "it combines, and every answer is compared with enumeration of all 4096 assignments (testing).",
    design="5/C12", technique="Coq proof of the independence principle; invariant-and-answer checking of histories against enumeration",
-   note="Trusted: Coq kernel; Z3 truthful. Four composite defects repaired (merge x3, _ensure_sat). Pairwise disjointness of children is not an "
+   note="Trusted: Coq kernel; Z3 truthful. Seven composite defects repaired (merge x4, _ensure_sat, stale merged-solver cache, split with an empty model set). Pairwise disjointness of children is not an "
         "implementation invariant (stale redundant children after simplify).")
 CHECKS["C14"] = dict(
    text="Machine-checked proof (Coq) over the functional store of frontends (Model/Frontend.v): an operation addressed to one solver leaves "
